@@ -1298,3 +1298,144 @@ Proof.
   destruct o; cbn in Ha; try discriminate; rewrite Ha, Hr, Hlk; cbn [negb];
     (destruct (slot sl h) as [old|] eqn:Eo; [rewrite (Hold old eq_refl)|]; reflexivity).
 Qed.
+
+(* ---------- C01: the static client obligation (wf_progs) ---------- *)
+(* A sequential abstract execution of one thread's program that tracks, per slot, whether a handle is there,
+   its type, and whether it MAY own a lock (every acquisition is assumed to succeed).  The program is well
+   formed when no blocking acquisition (lock, lock_shared, const lock, any whole-object operation) is made
+   while some handle of the thread may own a lock, and no handle may own a lock at the end. *)
+Definition aslot := option (bool * bool).
+Definition ao (o : option handle) : aslot := option_map (fun x => (hsh x, hown x)) o.
+Definition al (sl : list (option handle)) : list aslot := map ao sl.
+Definition aget (a : list aslot) (h : nat) : aslot := match nth_error a h with Some x => x | None => None end.
+Definition aown (x : aslot) : bool := match x with Some (_, true) => true | _ => false end.
+Definition any_own (a : list aslot) : bool := existsb aown a.
+Definition adis (x : bool * bool) : aslot := Some (fst x, false).
+Definition amove (a : list aslot) (src dst : nat) : list aslot :=
+  match aget a src with Some x => upd (upd a dst (Some x)) src (adis x) | None => a end.
+
+Definition astep (cf : config) (o : op) (a : list aslot) : option (list aslot) :=
+  match o with
+  | Lock _ | TryLock _ | TryLockFor _ | TryLockUntil _ | LockShared _ | TryLockShared _
+  | TryLockSharedFor _ | TryLockSharedUntil _ | ConstLock _ =>
+    match acq_of cf o with
+    | None => Some a
+    | Some (h, am, sh) =>
+      if negb (in_range h) then Some a
+      else if locking cf then
+        match am with
+        | ABlock => if any_own a then None else Some (upd a h (Some (sh, true)))
+        | _ => Some (upd a h (Some (sh, true)))
+        end
+      else Some (upd a h (Some (sh, false)))
+    end
+  | Unlock h => match aget a h with None => Some a | Some x => Some (upd a h (adis x)) end
+  | Destroy h => match aget a h with None => Some a | Some _ => Some (upd a h None) end
+  | MoveCtor src dst => if negb (in_range dst) || Nat.eqb src dst then Some a else Some (amove a src dst)
+  | MoveAssign src dst =>
+    if Nat.eqb src dst then Some a else
+    match aget a src, aget a dst with
+    | Some x, Some y => if negb (Bool.eqb (fst x) (fst y)) then Some a else Some (amove a src dst)
+    | _, _ => Some a
+    end
+  | Use _ _ _ | BoolOp _ | Bad _ => Some a
+  | Load | Store _ | Assign _ | Modify _ | ReadF _ | Exchange _ | Cas _ _ | Cast =>
+    match wop_code cf o with
+    | None => Some a
+    | Some _ => if any_own a then None else Some a
+    end
+  end.
+Fixpoint wf_from (cf : config) (a : list aslot) (p : list op) : bool :=
+  match p with
+  | [] => negb (any_own a)
+  | o :: r => match astep cf o a with None => false | Some a' => wf_from cf a' r end
+  end.
+Definition wf_progs (cf : config) (progs : list (list op)) : bool :=
+  forallb (wf_from cf (repeat None NSLOTS)) progs.
+
+(* order on abstract states: same handles, same types, may-own only grows *)
+Definition sle (x y : aslot) : Prop :=
+  match x, y with
+  | None, None => True
+  | Some (s, m), Some (s', m') => s = s' /\ (m = true -> m' = true)
+  | _, _ => False
+  end.
+Definition ale (a a' : list aslot) : Prop := Forall2 sle a a'.
+Lemma sle_refl x : sle x x. Proof. destruct x as [[s m]|]; cbn; auto. Qed.
+Lemma ale_refl a : ale a a. Proof. induction a; constructor; auto using sle_refl. Qed.
+Lemma ale_upd a a' h x y : ale a a' -> sle x y -> ale (upd a h x) (upd a' h y).
+Proof.
+  intros H. revert h. induction H as [|p q a a' Hpq H IH]; intros h Hxy; destruct h; cbn; try constructor; auto.
+  apply IH. exact Hxy.
+Qed.
+Lemma ale_aget a a' h : ale a a' -> sle (aget a h) (aget a' h).
+Proof.
+  intros H. revert h. unfold aget. induction H as [|p q a a' Hpq H IH]; intros h; destruct h; cbn; auto.
+Qed.
+Lemma aown_le x y : sle x y -> aown x = true -> aown y = true.
+Proof. destruct x as [[s [|]]|], y as [[s' m']|]; cbn; try tauto; try discriminate. intros [_ H] _. rewrite H; auto. Qed.
+Lemma any_own_le a a' : ale a a' -> any_own a = true -> any_own a' = true.
+Proof.
+  intros H. unfold any_own. induction H as [|p q a a' Hpq H IH]; cbn; [auto|].
+  intros Ho. apply orb_true_iff in Ho. apply orb_true_iff. destruct Ho; [left; eapply aown_le; eauto|right; auto].
+Qed.
+Lemma any_own_le_false a a' : ale a a' -> any_own a' = false -> any_own a = false.
+Proof. intros H Hf. destruct (any_own a) eqn:E; [|reflexivity]. rewrite (any_own_le _ _ H E) in Hf. discriminate. Qed.
+Lemma amove_le a a' src dst : ale a a' -> ale (amove a src dst) (amove a' src dst).
+Proof.
+  intros H. unfold amove. pose proof (ale_aget a a' src H) as Hs.
+  destruct (aget a src) as [[s m]|], (aget a' src) as [[s' m']|]; cbn in Hs; try tauto.
+  destruct Hs as [-> Hm]. apply ale_upd; [apply ale_upd; [exact H|cbn; auto]|cbn; auto].
+Qed.
+
+Lemma astep_mono cf o a a' b' : ale a a' -> astep cf o a' = Some b' -> exists b, astep cf o a = Some b /\ ale b b'.
+Proof.
+  intros H Hs.
+  assert (Hacq : forall h am sh,
+    (if negb (in_range h) then Some a'
+     else if locking cf then match am with
+            | ABlock => if any_own a' then None else Some (upd a' h (Some (sh, true)))
+            | _ => Some (upd a' h (Some (sh, true))) end
+          else Some (upd a' h (Some (sh, false)))) = Some b' ->
+    exists b, (if negb (in_range h) then Some a
+     else if locking cf then match am with
+            | ABlock => if any_own a then None else Some (upd a h (Some (sh, true)))
+            | _ => Some (upd a h (Some (sh, true))) end
+          else Some (upd a h (Some (sh, false)))) = Some b /\ ale b b').
+  { intros h am sh E. destruct (negb (in_range h)); [inversion E; subst; eauto|].
+    destruct (locking cf).
+    - destruct am.
+      + destruct (any_own a') eqn:Ea; [discriminate|]. rewrite (any_own_le_false _ _ H Ea).
+        inversion E; subst. eexists; split; [reflexivity|]. apply ale_upd; [exact H|apply sle_refl].
+      + inversion E; subst. eexists; split; [reflexivity|]. apply ale_upd; [exact H|apply sle_refl].
+      + inversion E; subst. eexists; split; [reflexivity|]. apply ale_upd; [exact H|apply sle_refl].
+    - inversion E; subst. eexists; split; [reflexivity|]. apply ale_upd; [exact H|apply sle_refl]. }
+  assert (Hwop : (match wop_code cf o with None => Some a' | Some _ => if any_own a' then None else Some a' end) = Some b' ->
+    exists b, (match wop_code cf o with None => Some a | Some _ => if any_own a then None else Some a end) = Some b /\ ale b b').
+  { intros E. destruct (wop_code cf o); [|inversion E; subst; eauto].
+    destruct (any_own a') eqn:Ea; [discriminate|]. rewrite (any_own_le_false _ _ H Ea). inversion E; subst; eauto. }
+  destruct o; cbn [astep] in *; try (inversion Hs; subst; eauto; fail); try (apply Hwop; exact Hs);
+    try (destruct (acq_of cf _) as [[[h0 am] sh]|]; [apply Hacq; exact Hs|inversion Hs; subst; eauto]; fail).
+  - (* Unlock *) pose proof (ale_aget a a' h H) as Hg.
+    destruct (aget a h) as [[s m]|], (aget a' h) as [[s' m']|]; cbn in Hg; try tauto; inversion Hs; subst; eauto.
+    destruct Hg as [-> _]. eexists; split; [reflexivity|]. apply ale_upd; [exact H|cbn; auto].
+  - (* Destroy *) pose proof (ale_aget a a' h H) as Hg.
+    destruct (aget a h) as [[s m]|], (aget a' h) as [[s' m']|]; cbn in Hg; try tauto; inversion Hs; subst; eauto.
+    eexists; split; [reflexivity|]. apply ale_upd; [exact H|exact I].
+  - (* MoveCtor *) destruct (negb (in_range dst) || Nat.eqb src dst); inversion Hs; subst; eauto using amove_le.
+  - (* MoveAssign *) destruct (Nat.eqb src dst); [inversion Hs; subst; eauto|].
+    pose proof (ale_aget a a' src H) as G1. pose proof (ale_aget a a' dst H) as G2.
+    destruct (aget a src) as [[s1 m1]|], (aget a' src) as [[s1' m1']|]; cbn in G1; try tauto;
+      try (inversion Hs; subst; eauto; fail).
+    destruct (aget a dst) as [[s2 m2]|], (aget a' dst) as [[s2' m2']|]; cbn in G2; try tauto;
+      try (inversion Hs; subst; eauto; fail).
+    destruct G1 as [-> _], G2 as [-> _]. cbn [fst] in *.
+    destruct (negb (Bool.eqb s1' s2')); inversion Hs; subst; eauto using amove_le.
+Qed.
+Lemma wf_from_mono cf p : forall a a', ale a a' -> wf_from cf a' p = true -> wf_from cf a p = true.
+Proof.
+  induction p as [|o r IH]; intros a a' H Hw; cbn [wf_from] in *.
+  - apply negb_true_iff in Hw. apply negb_true_iff. eapply any_own_le_false; eauto.
+  - destruct (astep cf o a') as [b'|] eqn:E; [|discriminate].
+    destruct (astep_mono cf o a a' b' H E) as [b [-> Hb]]. eapply IH; eauto.
+Qed.
